@@ -28,6 +28,7 @@ RowsShapeEq(rE, rO) == Len(rE) = Len(rO) /\ \A r \in DOMAIN rE : Len(rE[r]) = Le
 RowsEq(dtE, rE, dtO, rO) == \A r \in DOMAIN rE : SeqEq(dtE, rE[r], dtO, rO[r])
 MaskedEq(dtE, qE, dtO, qO, mask) == \A i \in DOMAIN qE : mask[i] = 1 => NumEq(dtE, qE[i], dtO, qO[i])
 AllClaimed(mask) == \A i \in DOMAIN mask : mask[i] = 1
+AnyClaimed(mask) == \E i \in DOMAIN mask : mask[i] = 1
 
 JudgeValue(exp, out, strict) ==
   LET te == JTag(exp)  to == JTag(out) IN
@@ -72,6 +73,6 @@ Judge(exp, out, strict) ==
   ELSE IF te = "refused" THEN (IF to = "raised" THEN "ok" ELSE "not-refused")
   ELSE IF to = "noreturn" THEN "noreturn"
   ELSE IF to = "mutated" THEN "operand-modified"
-  ELSE IF to = "raised" THEN (IF te \in {"partial", "pcol"} /\ ~AllClaimed(exp[4]) THEN "unspec" ELSE "raised")
+  ELSE IF to = "raised" THEN (IF te \in {"partial", "pcol"} /\ ~AnyClaimed(exp[4]) THEN "unspec" ELSE "raised")   \* a claimed entry needs an answer
   ELSE JudgeValue(exp, out, strict)
 =======================================================================
